@@ -73,6 +73,7 @@ fn main() {
                 regime: get("regime", "causal"),
                 mdk,
                 profile: get("profile", "core"),
+                restarts: get("restarts", "0") == "1",
             };
             let f = std::fs::File::create(out).expect("create out");
             let mut r = Recorder { out: Box::new(std::io::BufWriter::new(f)), i: 0 };
